@@ -213,6 +213,9 @@ class Model:
             if isinstance(v, DefaultDict) and v.make() is not None:
                 v[k] = v.make()
                 return v[k]
+            if isinstance(v, DefaultDict) and getattr(v, "factory_fn", None) is not None:
+                v[k] = self.invoke(v.factory_fn, [], {}, node)
+                return v[k]
             return ("getitem", to_term(v), to_term(key))
         if isinstance(v, (list, PyTuple)):
             items = v if isinstance(v, list) else v.items
@@ -419,6 +422,11 @@ class Model:
                     self.log("inline", node, callee=f"{m.mod.name}:{m.qualname}")
                     return I.call_function(m, pos, kw, node)
             return ("call", callee.name) + tuple(to_term(x) for x in pos)
+        if isinstance(callee, tuple) and callee and callee[0] == "ntclass":
+            o = Obj(f"{callee[1]}#{I.new_id()}", attrs=dict(zip(callee[2], pos)))
+            o.attrs.update(kw)
+            o.attrs["__fields__"] = list(callee[2])
+            return o
         if isinstance(callee, tuple) and callee and callee[0] == "method":
             return self.ops.method(callee[1], callee[2], pos, kw, node)
         if isinstance(callee, ExtMod):
